@@ -41,6 +41,17 @@ struct caption { int carved_out; };
 #define G_RP
 #endif
 
+#if defined(VERIF_CBMC) && defined(LIBC_BYTE_MODELS)
+/* libc models (part of the claim, R19): cbmc's built-in memcpy/memset/memmove replace a byte range of the WHOLE destination object (here the 52 KB
+   decoder), after which none of its members constant-folds.  Byte loops with the (concrete) lengths the decoder uses keep it field sensitive.
+   The native replay build uses libc. */
+void *memcpy(void *dst, const void *src, size_t n) { uint8_t *d = dst; const uint8_t *s = src; size_t i; for (i = 0; i < n; i++) d[i] = s[i]; return dst; }
+void *memset(void *dst, int c, size_t n) { uint8_t *d = dst; size_t i; for (i = 0; i < n; i++) d[i] = (uint8_t) c; return dst; }
+void *memmove(void *dst, const void *src, size_t n)
+{ uint8_t *d = dst; const uint8_t *s = src; size_t i; if (d == s || n == 0) return dst;
+  if (d < s) for (i = 0; i < n; i++) d[i] = s[i]; else for (i = n; i > 0; i--) d[i - 1] = s[i - 1]; return dst; }
+#endif
+
 /* ---------------- environment stubs (everything packet.c references outside itself) ---------------- */
 static unsigned ev_n; static int ev_type[4];
 #ifdef PKT_EVENT_HOOK
